@@ -134,6 +134,13 @@ def apply_body_rules(src, lo, hi, ed, rules):
             rules["R2"] = rules.get("R2", 0) + 1
             i = close + 1
             continue
+        # R2 (string literals): "text".to_string() / .to_owned() / String::from("text")
+        if t.kind == STR and src.is_p(i + 1, ".") and src.is_id(i + 2) and s[i + 2].text in ("to_string", "to_owned") \
+                and src.is_p(i + 3, "(") and src.match[i + 3] == i + 4:
+            ed.replace(t.start, s[i + 4].end, "vx_string()", 5)
+            rules["R2"] = rules.get("R2", 0) + 1
+            i += 5
+            continue
         # R5: assert!(cond, "msg", ...)  /  debug_assert!
         if t.kind == IDENT and t.text in ("assert", "debug_assert") and src.is_p(i + 1, "!") \
                 and src.is_p(i + 2, "("):
@@ -288,6 +295,23 @@ class Generator:
             elif cmd == "impl":
                 self.do_impl_open(arg, rel, i + 1)
                 i += 1
+            elif cmd == "trait":
+                self.do_trait_open(arg, rel, i + 1)
+                i += 1
+            elif cmd == "endtrait":
+                self.out.emit("}\n", "template", rel, i + 1)
+                self.cur_trait = None
+                i += 1
+            elif cmd == "tfn":
+                body = []
+                j = i + 1
+                while j < n and not (DIR_RE.match(lines[j]) and DIR_RE.match(lines[j]).group(1) == "endtfn"):
+                    body.append(lines[j])
+                    j += 1
+                if j >= n:
+                    raise SpecError("%s:%d: //@tfn without //@endtfn" % (rel, i + 1))
+                self.do_trait_fn(arg, body, rel, i + 1)
+                i = j + 1
             elif cmd == "endimpl":
                 self.out.emit("}\n", "template", rel, i + 1)
                 self.cur_impl = None
@@ -528,6 +552,48 @@ class Generator:
                 if sub.kind == "type":
                     self.out.emit("    " + src.text[s[sub.kw].start:s[sub.last].end] + "\n",
                                   "source", src=src, byte=s[sub.kw].start)
+
+    # -- traits ----------------------------------------------------------------------------
+    def do_trait_open(self, arg, rel, lineno):
+        parts, opts = split_target(arg)
+        file = parts[0]
+        name = parts[1]
+        if not name.startswith("trait "):
+            name = "trait " + name
+        src = load_source(self.repo, file)
+        it, _ = rustlex.find_item(src, [name])
+        if it is None or it.body_open is None:
+            raise LostAnchor("%s :: %s not found" % (file, name))
+        s = src.sig
+        text = src.text[s[it.kw].start:s[it.body_open].end]
+        self.out.emit("pub " + text + "\n", "source", src=src, byte=s[it.kw].start)
+        self.cur_trait = (file, name, it)
+        self.items.append(self.item_meta(src, file, [name], it, {"R3": 1}))
+
+    def do_trait_fn(self, arg, body, rel, lineno):
+        if getattr(self, "cur_trait", None) is None:
+            raise SpecError("%s:%d: //@tfn outside //@trait" % (rel, lineno))
+        file, tname, tit = self.cur_trait
+        parts, opts = split_target(arg)
+        src = load_source(self.repo, file)
+        s = src.sig
+        subs = rustlex.parse_items(src, tit.body_open + 1, src.match[tit.body_open])
+        m = [x for x in subs if x.kind == "fn" and x.name == parts[0]]
+        if len(m) != 1:
+            raise LostAnchor("%s :: %s :: fn %s not found" % (file, tname, parts[0]))
+        it = m[0]
+        end = it.body_open if it.body_open is not None else it.last
+        k = it.kw + 2
+        while k < end and not src.is_p(k, "("):
+            k += 1
+        pclose = src.match[k]
+        ed = Edits(src.text, (s[it.kw].start, s[end].start))
+        if src.is_p(pclose + 1, "-") and src.is_p(pclose + 2, ">"):
+            r0 = pclose + 3
+            ed.insert(s[r0].start, "(%s: " % opts.get("ret", "r"), 2)
+            ed.insert(s[end - 1].end, ")", 2)
+        self.emit_chunks(ed.render(), src)
+        self.out.emit("\n" + "\n".join(body) + "\n;\n", "template", rel, lineno + 1)
 
     # -- functions -------------------------------------------------------------------------
     def do_fn(self, arg, sections, rel, lineno):
